@@ -73,6 +73,7 @@ Print Assumptions C08_nodup_syntactic_guard_partial.
 Theorem C08_nodup_guard_not_vacuous :
   never_asks never_asks_example = true /\ length (objs (run current never_asks_example empty_world)) = 8.
 Proof. exact never_asks_example_ok. Qed.
+Print Assumptions C08_nodup_guard_not_vacuous.
 
 (* results documented as copies (+ - * copy() Structure(stru) pickle deepcopy): the result is a NEW object,
    every atom in it is newer than every atom that existed before, its lattice is newer than every lattice
@@ -109,6 +110,7 @@ Theorem C08_copy_selection_hypotheses_satisfiable :
    slice_indices 3 (mkSlice None None (Some (-2)%Z)) = Some [2; 0] /\
    nth_error (objs (fst (step current (GetSlice 0 (mkSlice None None (Some (-2)%Z))) three_atoms))) 1 = Some (OStruct [2; 0] 0)).
 Proof. exact (conj copy_hypotheses_example selection_hypotheses_example). Qed.
+Print Assumptions C08_copy_selection_hypotheses_satisfiable.
 
 (* items refine plain-list semantics.  The core lemma: after any insertion/assignment the payload sequence of
    the receiver is the plain list edit (old[lo:hi] = new | old[i_k] = new[k] | [old[i] for i in idxs]) of its
@@ -127,21 +129,25 @@ Print Assumptions C08_items_refine_list.
 Theorem C08_append_refines : forall h r c w old L a, Inv w -> get_struct w h = Some (old, L) -> resolve_aref w r = Some a ->
   payload (fst (step current (Append h r c) w)) h = payload w h ++ [tag_of w a].
 Proof. exact append_refines. Qed.
+Print Assumptions C08_append_refines.
 
 Theorem C08_insert_refines : forall h i r c w old L a, Inv w -> get_struct w h = Some (old, L) -> resolve_aref w r = Some a ->
   let p := clamp_insert (length old) i in
   payload (fst (step current (Insert h i r c) w)) h = firstn p (payload w h) ++ [tag_of w a] ++ skipn p (payload w h).
 Proof. exact insert_refines. Qed.
+Print Assumptions C08_insert_refines.
 
 Theorem C08_setint_refines : forall h i r c w old L a k, Inv w -> get_struct w h = Some (old, L) -> resolve_aref w r = Some a ->
   norm_index (length old) i = Some k ->
   payload (fst (step current (SetInt h i r c) w)) h = firstn k (payload w h) ++ [tag_of w a] ++ skipn (S k) (payload w h).
 Proof. exact setint_refines. Qed.
+Print Assumptions C08_setint_refines.
 
 Theorem C08_extend_iadd_refine : forall h s c w old L so, Inv w -> get_struct w h = Some (old, L) -> get_obj w s = Some so ->
   payload (fst (step current (Extend h s c) w)) h = payload w h ++ payload w s /\
   payload (fst (step current (IAdd h s) w)) h = payload w h ++ payload w s.
 Proof. exact extend_refines. Qed.
+Print Assumptions C08_extend_iadd_refine.
 
 Theorem C08_setslice_refines : forall h sl v c w old L vo start stop stp slen idxs, Inv w ->
   get_struct w h = Some (old, L) -> get_obj w v = Some vo ->
@@ -151,28 +157,34 @@ Theorem C08_setslice_refines : forall h sl v c w old L vo start stop stp slen id
     else if Nat.eqb (length (obj_items vo)) (length idxs) then assign_allT (payload w h) (combine idxs (payload w v))
     else payload w h.
 Proof. exact setslice_refines. Qed.
+Print Assumptions C08_setslice_refines.
 
 Theorem C08_isub_refines : forall h s w old L so, Inv w -> get_struct w h = Some (old, L) -> get_obj w s = Some so ->
   payload (fst (step current (ISub h s) w)) h = map (tag_of w) (filter (fun a => negb (memb a (obj_items so))) old).
 Proof. exact isub_refines. Qed.
+Print Assumptions C08_isub_refines.
 
 Theorem C08_imul_refines : forall h n w old L, Inv w -> get_struct w h = Some (old, L) ->
   payload (fst (step current (IMul h n) w)) h =
     if (n <=? 0)%Z then [] else payload w h ++ map (tag_of w) (repeat_list (Z.to_nat (n - 1)) old).
 Proof. exact imul_refines. Qed.
+Print Assumptions C08_imul_refines.
 
 Theorem C08_copy_refines : forall h w old L, Inv w -> get_struct w h = Some (old, L) ->
   exists hn w', step current (Copy h) w = (w', Done (RObj hn)) /\ payload w' hn = payload w h.
 Proof. exact copy_refines. Qed.
+Print Assumptions C08_copy_refines.
 
 Theorem C08_add_refines : forall h s w old L so, Inv w -> get_struct w h = Some (old, L) -> get_obj w s = Some so ->
   exists hn w', step current (Add h s) w = (w', Done (RObj hn)) /\ payload w' hn = payload w h ++ payload w s.
 Proof. exact add_refines. Qed.
+Print Assumptions C08_add_refines.
 
 Theorem C08_sub_refines : forall h s w old L so, Inv w -> get_struct w h = Some (old, L) -> get_obj w s = Some so ->
   exists hn w', step current (Sub h s) w = (w', Done (RObj hn)) /\
     payload w' hn = map (tag_of w) (filter (fun a => negb (memb a (obj_items so))) old).
 Proof. exact sub_refines. Qed.
+Print Assumptions C08_sub_refines.
 
 Theorem C08_mul_refines : forall h n w old L, Inv w -> get_struct w h = Some (old, L) ->
   exists hn w', step current (Mul h n) w = (w', Done (RObj hn)) /\
